@@ -51,6 +51,21 @@ def shapes(n, atoms):
                     yield [op, a, b]
 
 
+def shapes_ao(n, atoms):
+    """formulas with exactly n connective nodes from and/or/not"""
+    if n == 0:
+        for a in atoms:
+            yield a
+        return
+    for s in shapes_ao(n - 1, atoms):
+        yield ["not", s]
+    for k in range(0, n):
+        for a in shapes_ao(k, atoms):
+            for b in shapes_ao(n - 1 - k, atoms):
+                for op in ("and", "or"):
+                    yield [op, a, b]
+
+
 def cases(rng, tier):
     small = ATOMS[:3] + ATOMS[5:]
     # exhaustive part
@@ -62,6 +77,12 @@ def cases(rng, tier):
         for s in shapes(3, [B0, B1, ATOMS[5]]):
             yield ["nnf", s]
             yield ["dnf", s]
+    # nested constant-only structure (depth 3, and/or/not): tautological / contradictory sub-conjunctions at every
+    # position, including operands that are themselves conjunctions of constant atoms
+    for s in shapes_ao(3, [ATOMS[5], B0]):
+        yield ["dnf", s]
+    for s in shapes_ao(2, [ATOMS[5], ATOMS[6], B0, B1]):
+        yield ["dnf", s]
     # ternary and nested same-operator nodes
     for a, b, c in itertools.permutations(ATOMS[:3] + ATOMS[5:6], 3):
         for op in ("and", "or"):
